@@ -28,7 +28,7 @@ CHECKS = {
  "C17": ("model_checking", "The tetraplets of every request are compared by TLC (TraceNet!InvC17) with the provenance SeqSem predicts for the argument expressions (producer triplet, exact lens); one recorded deviation (functor .length) is classified inside the invariant and listed in known_findings.json.", "TLA+ trace validation against SeqSem provenance"),
  "C16": ("model_checking", "Every request any host receives in recorded histories of fragment scripts is checked by TLC (TraceNet!InvC16) for bag inclusion in the calls of the independent sequential evaluator SeqSem (same peer, service, function, argument values).", "TLA+ trace validation against the sequential reference evaluator SeqSem.tla"),
  "C17": ("model_checking", "The tetraplets of every request are compared by TLC (TraceNet!InvC17) with the provenance SeqSem predicts for the argument expressions (producer triplet, exact lens); one recorded deviation (functor .length) is classified inside the invariant and listed in known_findings.json.", "TLA+ trace validation against SeqSem provenance"),
- "C18": ("model_checking", "TLC enumerates failure kind (13 catchable: service error, fail, match/mismatch, lens errors, fold over a non-array, non-string triplet part, length of a non-array, uninitialised after new, ...; 4 quiet: success, never, waiting on a join, null; 1 uncatchable) x context (plain, after a call, par branch, par with a failing sibling, fold body, new scope, seq continuation); every pair runs on the real code uncaught and under an xor whose catch branch reports :error:; TLC validates FnSpec!XorExpect: catch runs iff the left branch fails catchably, the caught code and message equal the uncaught run's ret_code and error_message, execution continues after the xor, quiet and uncatchable cases never reach the catch branch.", "TLA+ enumeration + trace validation (FnSpec!XorCases / XorExpect)"),
+ "C18": ("model_checking", "TLC enumerates failure kind (13 catchable: service error, fail, match/mismatch, lens errors, fold over a non-array, non-string triplet part, length of a non-array, uninitialised after new, ...; 4 quiet: success, never, waiting on a join, null; 1 uncatchable) x context (plain, after a call, par branch, par with a failing sibling, fold body, new scope, seq continuation); every pair runs on the real code uncaught and under an xor whose catch branch reports :error:; TLC validates FnSpec!XorExpect: catch runs iff the left branch fails catchably, the caught code and message equal the uncaught run's ret_code and error_message, execution continues after the xor, quiet and uncatchable cases never reach the catch branch. In addition the error descriptors (%last_error% / :error:, re-arming by xor and par, fail with literals / %last_error% / :error:) are part of the model interpreter (AirInterp stage 3): TLC enumerates the 700-script error family (first failure x handler shape with tolerated or nested failures x second failure x report / re-raise / uncaught; ScriptGen level 5), MCNet explores it, every behaviour and seeded random full-profile histories run on the real code and TraceConf!InvC18 compares run code and the error codes handed to services with the model.", "TLA+ enumeration + trace validation (FnSpec!XorCases / XorExpect; ScriptGen!ErrorFamily, TraceConf!InvC18)"),
  "C19": ("model_checking", "TLC checks on every recorded run: next peers without self/duplicates, new sent-marks imply forwarding, new canon results attributed to the running peer; at quiescence of join-free scripts the observer's merge holds no sent-mark.", "TLA+ trace validation; invariants Props!C19b/cWeak/aCanon/d"),
  "C20": ("model_checking", "Every recorded run is executed twice on the real code; TLC checks equality of code, message, canonical data digest, requests, next-peer set and flags.", "TLA+ trace validation; re-execution probe; invariant Props!C20"),
  "C21": ("model_checking", "TLC enumerates the complete grid of interpreter versions around the minimum (major, minor, patch, pre-release, build metadata) x inner-data kind x previous-data kind (576 cases, FnSpec!VersionCases); the harness builds each envelope and runs it on the real code; TLC validates every record against FnSpec!VersionExpect (semver precedence against 0.61.0) and that the executed cases are exactly the enumerated space.", "TLA+ case-space enumeration + trace validation of executed cases (FnSpec.tla)"),
